@@ -104,3 +104,85 @@ pub proof fn lemma_C09_closes(b: BidOrderV3, k: Seq<u8>, i: ContractInfoV3)
     broadcast use dec_lemmas;
     if b.fee is Some { lemma_prorata_zero(b.fee->0.amount.v as int, b.quote.amount.v as int); }
 }
+
+// ---- C09: the pro-rata share is the exact quotient rounded to the nearest unit (half up), except that at an exact
+// half-unit tie the next lower unit may result.  Holds while 3 * fee * quote < 10^28; beyond that the 28-digit quotient
+// is too coarse (recorded finding K1).  Rests on the two accuracy axioms below (A-DEC-DIV, tested by the audit).
+#[verifier::external_body]
+pub proof fn axiom_ddiv_accuracy(a: int, b: int)
+    requires b > 0, 0 <= a <= b
+    ensures -b <= 2 * (ddiv(of_int(a), of_int(b)) * b - a * D()) <= b      // |quotient - a/b| <= 0.5e-28
+{}
+#[verifier::external_body]
+pub proof fn axiom_rmul_accuracy(r: int, n: int)
+    requires 0 <= r <= D(), n >= 0
+    ensures -n <= rmul(r, of_int(n)) - r * n <= n                          // rounded to 96 bits of mantissa
+{}
+/// f*n/q rounded half up, and whether the exact value is a half-unit tie
+pub open spec fn nearest_share(f: int, n: int, q: int) -> int { (2 * f * n + q) / (2 * q) }
+pub open spec fn share_is_tie(f: int, n: int, q: int) -> bool { (2 * f * n + q) % (2 * q) == 0 }
+
+//@lemma props=C09
+pub proof fn lemma_C09_nearest(f: int, n: int, q: int)
+    requires q >= 1, 0 <= n <= q, f >= 0, 3 * f * q < D()
+    ensures !share_is_tie(f, n, q) ==> prorata(f, n, q) == nearest_share(f, n, q),
+            share_is_tie(f, n, q) ==> prorata(f, n, q) == nearest_share(f, n, q) || prorata(f, n, q) == nearest_share(f, n, q) - 1,
+{
+    broadcast use dec_lemmas, axiom_ddiv, axiom_rmul;
+    lemma_of_int_inj(n, q); lemma_of_int_inj(0, n);
+    assert(of_int(q) > 0 && 0 <= of_int(n) <= of_int(q));
+    let r = ddiv(of_int(n), of_int(q));
+    assert(0 <= r <= D());
+    axiom_ddiv_accuracy(n, q);
+    axiom_rmul_accuracy(r, f);
+    let y = rmul(r, of_int(f));
+    assert(y >= 0);
+    let k = nearest_share(f, n, q);
+    let e = q * y - f * n * D();
+    // |2e| <= 3 f q < D
+    assert(-(3 * f * q) <= 2 * e <= 3 * f * q) by(nonlinear_arith)
+        requires e == q * y - f * n * D(), -f <= y - r * f <= f, -q <= 2 * (r * q - n * D()) <= q, q >= 1, f >= 0;
+    // k = floor((2fn + q) / 2q)
+    let t = 2 * f * n + q;
+    assert(t >= 0) by(nonlinear_arith) requires t == 2 * f * n + q, f >= 0, n >= 0, q >= 1;
+    vstd::arithmetic::div_mod::lemma_fundamental_div_mod(t, 2 * q);
+    assert(t == 2 * q * k + t % (2 * q));
+    vstd::arithmetic::div_mod::lemma_mod_bound(t, 2 * q);
+    let m = t % (2 * q);
+    assert(0 <= m < 2 * q);
+    // round_half_away(y) = floor((2y + D) / 2D)
+    reveal(round_half_away);
+    let res = (2 * y + D()) / (2 * D());
+    assert(prorata(f, n, q) == res);
+    if m != 0 {
+        // not a tie: (2k-1) q < 2fn < (2k+1) q, hence (2k-1) D <= 2y < (2k+1) D
+        assert(2 * q * y == 2 * f * n * D() + 2 * e) by(nonlinear_arith) requires e == q * y - f * n * D();
+        assert(2 * f * n == 2 * q * k + m - q);
+        assert((2 * k - 1) * D() * q < 2 * q * y) by(nonlinear_arith)
+            requires 2 * q * y == 2 * f * n * D() + 2 * e, 2 * f * n == 2 * q * k + m - q, m >= 1, 2 * e > -D(), q >= 1, D() > 0;
+        assert(2 * q * y < (2 * k + 1) * D() * q) by(nonlinear_arith)
+            requires 2 * q * y == 2 * f * n * D() + 2 * e, 2 * f * n == 2 * q * k + m - q, m <= 2 * q - 1, 2 * e < D(), q >= 1, D() > 0;
+        assert((2 * k - 1) * D() < 2 * y < (2 * k + 1) * D()) by(nonlinear_arith)
+            requires (2 * k - 1) * D() * q < 2 * q * y, 2 * q * y < (2 * k + 1) * D() * q, q >= 1;
+        assert(2 * D() * k <= 2 * y + D() < 2 * D() * (k + 1)) by(nonlinear_arith)
+            requires (2 * k - 1) * D() < 2 * y < (2 * k + 1) * D();
+        vstd::arithmetic::div_mod::lemma_fundamental_div_mod_converse(2 * y + D(), 2 * D(), k, (2 * y + D()) - 2 * D() * k);
+    } else {
+        // tie: 2fn = (2k-1) q, hence (2k-2) D < 2y < 2k D
+        assert(2 * q * y == 2 * f * n * D() + 2 * e) by(nonlinear_arith) requires e == q * y - f * n * D();
+        assert(2 * f * n == 2 * q * k - q);
+        assert((2 * k - 2) * D() * q < 2 * q * y < 2 * k * D() * q) by(nonlinear_arith)
+            requires 2 * q * y == 2 * f * n * D() + 2 * e, 2 * f * n == 2 * q * k - q, -D() < 2 * e < D(), q >= 1, D() > 0;
+        assert((2 * k - 2) * D() < 2 * y < 2 * k * D()) by(nonlinear_arith)
+            requires (2 * k - 2) * D() * q < 2 * q * y, 2 * q * y < 2 * k * D() * q, q >= 1;
+        if 2 * y + D() >= 2 * D() * k {
+            assert(2 * D() * k <= 2 * y + D() < 2 * D() * (k + 1)) by(nonlinear_arith)
+                requires 2 * y + D() >= 2 * D() * k, 2 * y < 2 * k * D(), D() > 0;
+            vstd::arithmetic::div_mod::lemma_fundamental_div_mod_converse(2 * y + D(), 2 * D(), k, (2 * y + D()) - 2 * D() * k);
+        } else {
+            assert(2 * D() * (k - 1) <= 2 * y + D() < 2 * D() * k) by(nonlinear_arith)
+                requires 2 * y + D() < 2 * D() * k, (2 * k - 2) * D() < 2 * y, D() > 0;
+            vstd::arithmetic::div_mod::lemma_fundamental_div_mod_converse(2 * y + D(), 2 * D(), k - 1, (2 * y + D()) - 2 * D() * (k - 1));
+        }
+    }
+}
